@@ -2240,9 +2240,21 @@ impl ConfigState {
                     .collect::<BTreeMap<_, _>>()
             };
             let nonempty_tcp = |m: &HashMap<ClusterId, Vec<TcpFrontend>>| {
+                // frontends of a cluster form a set: `diff` walks hash sets, so
+                // the replayed Vec order is not the target's
                 m.iter()
                     .filter(|(_, v)| !v.is_empty())
-                    .map(|(k, v)| (k.clone(), v.clone()))
+                    .map(|(k, v)| {
+                        let mut v = v.clone();
+                        v.sort();
+                        (k.clone(), v)
+                    })
+                    .collect::<HashMap<_, _>>()
+            };
+            let nonempty_certs = |m: &HashMap<SocketAddr, HashMap<Fingerprint, CertificateAndKey>>| {
+                m.iter()
+                    .filter(|(_, v)| !v.is_empty())
+                    .map(|(k, v)| (*k, v.clone()))
                     .collect::<HashMap<_, _>>()
             };
             debug_assert!(
@@ -2251,7 +2263,7 @@ impl ConfigState {
                     && replayed.http_fronts == other.http_fronts
                     && replayed.https_fronts == other.https_fronts
                     && nonempty_tcp(&replayed.tcp_fronts) == nonempty_tcp(&other.tcp_fronts)
-                    && replayed.certificates == other.certificates
+                    && nonempty_certs(&replayed.certificates) == nonempty_certs(&other.certificates)
                     && replayed.http_listeners == other.http_listeners
                     && replayed.https_listeners == other.https_listeners
                     && replayed.tcp_listeners == other.tcp_listeners
